@@ -33,7 +33,7 @@ class Rec:
     """Collector handed to a shard. Everything it holds is JSON-serialisable."""
 
     MAX_VIOL = 40
-    MAX_SAMPLES = 4
+    MAX_SAMPLES = 3
 
     def __init__(self, prop, seed, shard, tier):
         self.prop, self.seed, self.shard, self.tier = prop, seed, shard, tier
@@ -275,6 +275,21 @@ def write_replay(pid, v):
 
 
 def main(argv=None):
+    try:
+        return _main(argv)
+    except BrokenPipeError:
+        # stdout was closed by the reader (e.g. `| head`): the verdict is in the exit code and the evidence file
+        try:
+            sys.stdout = open(os.devnull, "w")
+        except Exception:
+            pass
+        return _LAST_RC[0]
+
+
+_LAST_RC = [2]
+
+
+def _main(argv=None):
     ap = argparse.ArgumentParser(prog="jtv")
     ap.add_argument("pid")
     ap.add_argument("--tier", default=os.environ.get("VERIF_TIER", "quick"))
@@ -348,6 +363,7 @@ def main(argv=None):
         for r in agg["inconcl"][:8]:
             lines.append(f"INCONCLUSIVE property={pid} reason={str(r)[:800]}")
 
+    _LAST_RC[0] = rc
     level = getattr(mod, "LEVEL", "exploration")
     cov = {
         "evaluations": agg["ev"],
